@@ -301,12 +301,15 @@ def task_reorder(t):
                             m.configure(reordering=True)
                         seam.arm((k,))
                         try:
+                            # the variables as a set, list, tuple or ONE-SHOT iterator
+                            # (`qvars` is documented as an iterable): the container rotates
+                            qv = _containers(Q, fu + pi + len(Q))
                             if form == 'quantify':
-                                r = m.quantify(u, set(Q), bool(fa))
+                                r = m.quantify(u, qv, bool(fa))
                             elif form == 'exist':
-                                r = m.exist(list(Q), u)
+                                r = m.exist(qv, u)
                             elif form == 'forall':
-                                r = m.forall(tuple(Q), u)
+                                r = m.forall(qv, u)
                             elif form == 'apply-E':
                                 r = m.apply('\\E', cube, u)
                             else:
